@@ -448,10 +448,11 @@ def model_defsets(ntypes=4):
     (set 3) - in sets 1 and 2 it keeps name, version and bit-length set -, A4 refers to A3."""
     res = []
     for d in (1, 2, 3):
-        f = {"mr/A1.1.0.dsdl": "uint8 x\n@sealed\n", "mr/A2.1.0.dsdl": "uint8 y\n@sealed\n"}
-        f["mr/A3.1.0.dsdl"] = {1: "mr.A1.1.0 a\n@sealed\n", 2: "mr.A2.1.0 a\n@sealed\n", 3: "mr.A1.1.0 a\nmr.A2.1.0 b\n@sealed\n"}[d]
+        f = {"mr/A1.1.0.dsdl": "bool x\ntruncated uint12[<=3] xs\n@sealed\n", "mr/A2.1.0.dsdl": "bool y\ntruncated uint12[<=3] ys\n@sealed\n"}
+        f["mr/A3.1.0.dsdl"] = {1: "@union\nuint16[1] u\nmr.A1.1.0 a\n@sealed\n", 2: "@union\nuint16[1] u\nmr.A2.1.0 a\n@sealed\n",
+                               3: "@union\nuint16[1] u\nmr.A1.1.0 a\nmr.A2.1.0 b\n@sealed\n"}[d]
         if ntypes >= 4:
-            f["mr/A4.1.0.dsdl"] = "mr.A3.1.0 q\n@sealed\n"
+            f["mr/A4.1.0.dsdl"] = "mr.A3.1.0[<=2] q\nbool w\n@sealed\n"
         res.append(f)
     return res
 
@@ -537,7 +538,7 @@ class NsBuilder:
         if t["kind"] == "union":
             lines.append("@union")
         lines += ["%s %s" % f for f in t["fields"]]
-        lines.append("@sealed")
+        lines.append("@extent %d" % t["ext"] if t.get("ext") else "@sealed")
         if t["kind"] == "service":
             lines.append("---")
             lines += ["%s %s" % f for f in t["resp"]]
@@ -565,7 +566,7 @@ def rand_namespace(rng):
     vname = "V"
     vns = rng.choice([""] + b.subs)
     for ver in rng.sample([(1, 0), (1, 1), (2, 0), (2, 3)], rng.randint(2, 3)):
-        b.add(vname, ver, ns=vns, kind="struct")
+        b.add(vname, ver, ns=vns, kind="struct")["ext"] = 4096
     for i in range(rng.randint(2, 5)):
         b.add("T%d" % i, (1, 0))
     # a referrer of a leaf, so that a retarget edit exists
@@ -725,6 +726,42 @@ def rand_scenario(ctx, sid, rng):
     runs.append(mk(cur_d, lctx="fresh"))
     return {"sid": sid, "kind": "rand", "defsets": defsets, "rootns": "vr", "lookup": [], "tpl": tpl, "names": {}, "runs": runs,
             "edits": edits}
+
+
+def canonical_scenarios(sid0):
+    """hand-written histories that do not depend on VERIF_SEED: nested namespaces, a union referring into another namespace
+    (the shape on which the py target's pickled model was seen to depend on history), several versions of one name with
+    different dependencies; whole / subsets / same generator again with other flags / reused context"""
+    defs = {
+        "vr/n1/L0x.1.0.dsdl": "bool px\ntruncated uint12[<=3] qx\n@sealed\n",
+        "vr/n1/L0y.1.0.dsdl": "bool py\ntruncated uint12[<=3] qy\n@sealed\n",
+        "vr/k9/T2.1.0.dsdl": "@union\nuint16[1] lambda\nvr.n1.L0x.1.0 lambda_1\n@sealed\n",
+        "vr/V.1.0.dsdl": "vr.n1.L0x.1.0 a\nuint8 b\n@extent 256\n",
+        "vr/V.1.1.dsdl": "vr.n1.L0y.1.0[<=2] a\nuint8 b\n@extent 256\n",
+        "vr/V.2.0.dsdl": "vr.k9.T2.1.0 a\nvr.V.1.0 old\n@extent 1024\n",
+        "vr/zz/S.1.0.dsdl": "vr.V.1.1 req\n@sealed\n---\nvr.k9.T2.1.0[<=2] resp\n@sealed\n",
+    }
+    edited = dict(defs)
+    edited["vr/k9/T2.1.0.dsdl"] = defs["vr/k9/T2.1.0.dsdl"].replace("L0x", "L0y")
+    edited["vr/V.1.0.dsdl"] = defs["vr/V.1.0.dsdl"].replace("L0x", "L0y")
+    res = []
+    for i, lang in enumerate(LANGS):
+        for pps in ({"limit": None}, {"limit": 1}):
+            base = {"lang": lang, "langopts": None, "pps": pps, "tap": True, "omit": False, "embed": False}
+
+            def mk(d, types=None, lctx="fresh", gen="fresh", **kw):
+                return dict(base, d=d, types=types, lctx=lctx, gen=gen, **kw)
+
+            runs = [mk(0)]
+            runs.append(dict(runs[-1], lctx="same", gen="same"))
+            runs.append(dict(runs[-1], lctx="same", gen="same", omit=True))
+            runs.append(dict(runs[-1], lctx="same", gen="same", omit=False))
+            runs += [mk(0, ["vr.n1.L0x.1.0", "vr.k9.T2.1.0"]), mk(0, ["vr.k9.T2.1.0", "vr.n1.L0x.1.0"], lctx="same"),
+                     mk(0, ["vr.n1.L0x.1.0"]), mk(0, ["vr.V.1.0", "vr.n1.L0x.1.0"]), mk(0, ["vr.n1.L0y.1.0", "vr.V.1.1"], lctx="same"),
+                     mk(1, lctx="same"), mk(1), mk(0, lctx="same"), mk(0, omit=True), mk(0)]
+            res.append({"sid": sid0 + len(res), "kind": "canonical", "defsets": [defs, edited], "rootns": "vr", "lookup": [], "tpl": {"id": "builtin"},
+                        "names": {}, "runs": runs})
+    return res
 
 
 # =====================================================================================================================
@@ -990,7 +1027,7 @@ def run(ctx):
         if not hs:
             raise MachineryFailure("negative control %s: the flawed design was not refuted by TLC" % cfg)
         ctx.cov["model_negative_controls"][cfg] = "%s refuted: %d violating histories in %d states" % (flag, len(hs), res.distinct)
-        step = max(1, len(hs) // ctx.pick(24, 160))
+        step = max(1, len(hs) // ctx.pick(24, 120))
         for i, h in enumerate(hs[::step]):
             sc = model_scenario(sid, h, ("cpp" if cfg == "neg_fold" else ["c", "cpp", "py", "html"][i % 4]) if cfg != "neg_depkey" else ["c", "cpp"][i % 2],
                                 "predicted:" + cfg)
@@ -1006,7 +1043,7 @@ def run(ctx):
     cases = run_model(ctx, ctx.pick("GenSiblings_emitq", "GenSiblings_emit"), "MaxRuns=2 (emission, repaired model)", emit=True).json_lines()
     if len(cases) < 500:
         raise MachineryFailure("too few histories emitted: %d" % len(cases))
-    step = max(1, len(cases) // ctx.pick(240, 4000))
+    step = max(1, len(cases) // ctx.pick(240, 2400))
     for i, h in enumerate(cases[::step]):
         scen[sid] = model_scenario(sid, h, LANGS[i % 4], "model")
         sid += 1
@@ -1024,9 +1061,16 @@ def run(ctx):
                 sid += 1
     n_model = sid - n_pred
 
-    # ---- 4. code -> spec: random namespaces and histories ----------------------------------------------------------------
-    for _ in range(ctx.pick(140, 2400)):
-        scen[sid] = rand_scenario(ctx, sid, ctx.rng)
+    # ---- 4. code -> spec: canonical, fixed-seed random and VERIF_SEED random namespaces and histories ------------------------
+    import random
+
+    for sc in canonical_scenarios(sid):
+        scen[sc["sid"]] = sc
+        sid += 1
+    fixed = random.Random(20260926)
+    n_random = ctx.pick(140, 1400)
+    for i in range(n_random):
+        scen[sid] = rand_scenario(ctx, sid, fixed if i < n_random // 3 else ctx.rng)
         sid += 1
     n_rand = sid - n_pred - n_model
 
@@ -1117,7 +1161,7 @@ def run(ctx):
     ctx.sample({"direction": "code->spec", "event": {k: smp2[k] for k in ("sid", "run", "ord", "type", "templates", "options", "lang", "digest", "lim", "uq")}})
     msamp = next(scen[s] for s in sorted(scen) if scen[s]["kind"] == "model")
     ctx.sample({"direction": "spec->code", "scenario": {k: msamp[k] for k in ("tpl", "runs", "expect")}})
-    ctx.cov["scenarios"] = {"predicted_defect": n_pred, "model_histories": n_model, "random": n_rand, "second_hash_seed": len(part_b),
+    ctx.cov["scenarios"] = {"predicted_defect": n_pred, "model_histories": n_model, "canonical_and_random": n_rand, "second_hash_seed": len(part_b),
                             "genfile_events": nev, "keys_generated_more_than_once": len(compared)}
     ctx.cov["rule"] = ("one genfile event per file written for a DSDL type by the real DSDLCodeGenerator; key = (scenario directory, language+options, "
                        "template set, post-processor list, omit flag, type name+version, hash of the DSDL source of its dependency closure); "
